@@ -1,4 +1,4 @@
 From Coq Require Import Extraction ExtrOcamlBasic.
 From Verif Require Import Codec.Errors.
 Extraction Language OCaml.
-Extraction "model.ml" react table_class.
+Extraction "model.ml" react table_class kept_attrs.
